@@ -16,7 +16,7 @@ ROOT = os.path.dirname(os.path.dirname(os.path.abspath(__file__)))
 sys.path.insert(0, ROOT)
 os.environ.setdefault("PYTHONHASHSEED", "0")
 
-from lib.ctx import Ctx, MachineryFailure  # noqa
+from lib.ctx import Ctx, MachineryFailure, LibraryRaised  # noqa
 from lib.tlc import TlcFailure  # noqa
 
 
@@ -35,6 +35,13 @@ def main():
     ctx = Ctx(a.pid, a.tier, seed, level=getattr(mod, "LEVEL", "model_checking"))
     try:
         mod.run(ctx)
+        return ctx.finish()
+    except LibraryRaised as e:
+        exc = e.error.split(":")[0].strip() or "Exception"
+        ctx.violation(f"library-raised/{e.script[:-3]}[{exc}]",
+                      f"the library raised where the replay {e.script} expects it to answer: {e.error} (at {e.where}); the rest of this check was not run",
+                      {"script": e.script, "error": e.error, "where": e.where, "traceback_tail": e.tail})
+        ctx.clause("the library answers every call of the replays that the contract says it must answer", 1, 1)
         return ctx.finish()
     except (MachineryFailure, TlcFailure) as e:
         ctx.cleanup()
